@@ -59,15 +59,30 @@ Dec == /\ Len(hist) = 1
        /\ UNCHANGED <<fam, lvl, recv>>
 Set == /\ Len(hist) \in 1..2 /\ hist[Len(hist)].op # "set" /\ ~obj.nil
        /\ \/ \E n \in NameSet(fam, lvl) :
-               \E c \in {UnknownCode} \cup (IF n \in {"AV", "C", "E", "RC", "CR", "MS", "TD"} THEN {CHOOSE x \in CodesOf(fam, n) : x # obj.f[n]} ELSE {}) :
+               \E c \in {UnknownCode} \cup (IF n \in {"AV", "C", "E", "RC", "CR", "MS", "TD", "CDP"}
+                                              THEN LET cs == IF fam = "v3" THEN V3Codes[n] ELSE V2Codes[n]
+                                                   IN {cs[1], cs[Len(cs)]} \ {obj.f[n]}      \* a defined value and the Not Defined one
+                                              ELSE {}) :
                   /\ hist' = Append(hist, [op |-> "set", n |-> n, c |-> c])
                   /\ obj' = SetField(obj, n, c)
+          \* every metric of one group reset to unknown / set to a defined value at once
+          \/ \E g \in LevelGroups(lvl), c \in {UnknownCode, "first"} :
+               /\ hist' = Append(hist, [op |-> "setgroup", g |-> g, c |-> c])
+               /\ obj' = [obj EXCEPT !.f = [n \in DOMAIN obj.f |->
+                                             IF n \in Range(GroupNames(fam, g))
+                                             THEN (IF c = UnknownCode THEN UnknownCode ELSE (IF fam = "v3" THEN V3Codes[n] ELSE V2Codes[n])[1])
+                                             ELSE obj.f[n]]]
           \/ /\ fam = "v3"
              /\ \E v \in {"?", "3.0", "3.1"} \ {obj.ver} :
                   /\ hist' = Append(hist, [op |-> "set", n |-> "Ver", c |-> v])
                   /\ obj' = SetVer(obj, v)
        /\ UNCHANGED <<fam, lvl, recv>>
-Next == Start \/ Dec \/ Set
+\* a second Decode into the same receiver (outside the listed properties; replayed for the
+\* MODEL-DRIFT comparison with Decoder!DecodeFrom)
+Dec2 == /\ Len(hist) = 2 /\ hist[2].op = "decode" /\ hist[1].op = "new"
+        /\ \E i \in 1..Len(Inputs(fam)) : hist' = Append(hist, [op |-> "decode2", s |-> Inputs(fam)[i]])
+        /\ UNCHANGED <<fam, lvl, recv, obj>>
+Next == Start \/ Dec \/ Set \/ Dec2
 Spec == Init /\ [][Next]_vars
 
 (***************************************************************************)
@@ -75,12 +90,14 @@ Spec == Init /\ [][Next]_vars
 (***************************************************************************)
 Built == hist # <<>>
 NilAndFreshInvalid == (Built /\ Len(hist) = 1) => Invalid(obj)
-DecodedIsValid == (Built /\ hist[Len(hist)].op = "decode" /\ ~obj.nil) => ~Invalid(obj)
+DecodedIsValid == (Built /\ hist[Len(hist)].op \in {"decode", "decode2"} /\ ~obj.nil) => ~Invalid(obj)
 RejectedMeansNoObject == (Built /\ hist[Len(hist)].op = "decode") => (obj.nil <=> ~Accepts(fam, lvl, hist[Len(hist)].s))
 \* resetting a metric of the queried level invalidates the object (v2: only while its group is present)
 ResetInvalidates ==
-  (Built /\ hist[Len(hist)].op = "set" /\ hist[Len(hist)].c = UnknownCode)
-    => (hist[Len(hist)].n \in RelevantNames(obj) \cup {"Ver"} => Invalid(obj))
+  /\ (Built /\ hist[Len(hist)].op = "set" /\ hist[Len(hist)].c = UnknownCode)
+        => (hist[Len(hist)].n \in RelevantNames(obj) \cup {"Ver"} => Invalid(obj))
+  /\ (Built /\ hist[Len(hist)].op = "setgroup" /\ hist[Len(hist)].c = UnknownCode)
+        => ((hist[Len(hist)].g = "B" \/ fam = "v3" \/ GroupPresentIn(obj, hist[Len(hist)].g)) => Invalid(obj))
 \* an invalid lower view makes every higher view invalid
 ViewsMonotone == (Built /\ ~obj.nil) =>
    \A via \in LevelGroups(lvl) \ {lvl} : Invalid(ViewOf(obj, via)) => Invalid(obj)
